@@ -25,7 +25,7 @@ ASSUMPTIONS = ["bounds of the statement are evaluated on the generated geometry:
                "of the interface end points of both frames, bounding-box shape change < 10% of that extent; instances outside give no verdict"]
 REQUIRED_TAGS = {"all": ["inside_bounds", "outside_bounds", "renumbered", "cm", "guess_true", "guess_wrong", "len>2", "roundtrip_checked", "binding:spacing", "binding:extent", "large_length_unit", "small_length_unit"]}
 
-VMAPS = [["id"], ["rev"], ["gap", 3, 7], ["off", 10 ** 6], ["rot", 5], ["swap0"]]
+VMAPS = [["id"], ["rev"], ["gap", 3, 7], ["off", 10 ** 6], ["rot", 5], ["swap0"], ["stored_rev"]]
 
 
 def tissue_for(base, cells):
@@ -56,6 +56,8 @@ def build_frames(at, cm, fields, vmaps, k=1):
             # {"vmap": ids, "vorder": order in which the vertices are stored} - the tracker scans candidates in storage order
             vm, vorder = vm["vmap"], vm.get("vorder")
         vm = ["swap", 0, zero_j] if vm == ["swap0"] else vm
+        if vm == ["stored_rev"]:
+            vm, vorder = ["rev"], "id"
         spec.append({"at": at, "k": k, "cmap": cm, "post": SC.displace_post(at, dz), "time": float(t), "lab": {"vmap": vm, "vorder": vorder}})
     return spec
 
